@@ -33,7 +33,7 @@ func runC11(c *core.Ctx) {
 	}
 	c.Doc("C11.read-error", "every Message.Read error in process leads to closeWith(err) and loop exit", 2)
 	ruleReadErrorCloses(c, a)
-	c.Doc("C11.shutdown", "closeWith closes the stream and every registered handler with the error", 3)
+	c.Doc("C11.shutdown", "closeWith closes the stream (before taking the handler mutex) and every registered handler with the error", 4)
 	ruleShutdown(c, a)
 	c.Doc("C11.handler-before-send", "reply handler registered before Send, removed if Send fails", 2)
 	ruleHandlerBeforeSend(c, a, "C11.handler-before-send")
@@ -138,6 +138,17 @@ func ruleShutdown(c *core.Ctx, a *epAnchors) {
 		}
 	}
 	c.Check(ok, rule, "bus/net.endPoint.closeWith/stream-close", fn.Pos(), "stream.Close() on every path", "endPoint.closeWith can return without closing the stream: the peer and the read loop are not released")
+	// … and without handlersMutex: dispatch writes its full-queue error reply to the
+	// stream while holding the mutex; only closing the stream unblocks it
+	lf := core.AnalyzeLocks(fn)
+	free := true
+	for _, cl := range closeCalls {
+		if lf.MayHeld(cl)[a.class] {
+			free = false
+		}
+	}
+	c.Check(free, rule, "bus/net.endPoint.closeWith/stream-close-unlocked", fn.Pos(), "the stream is closed before handlersMutex is taken",
+		"the stream is closed while holding handlersMutex: dispatch can hold that mutex while blocked writing to a peer that does not read, so Close waits for the mutex and the writer waits for the stream (deadlock, handlers are never closed)")
 
 	// every non-nil slot closed with the error
 	errParam := ssa.Value(fn.Params[1])
